@@ -253,3 +253,436 @@ Proof.
     destruct (IH rest ({| d_name := plit n; d_args := d_args d |} :: acc) es ts1 Hrest Hna Hnp ltac:(simpl in *; lia) M1) as (ts' & E2 & M2).
     exists ts'. split; [|exact M2]. rewrite E2. simpl. rewrite <- app_assoc. rewrite Hl. destruct d; reflexivity.
 Qed.
+
+(* ---- selections ---- *)
+Lemma etoks_sel_field : forall alias fname args dirs sels,
+  etoks_sel (SField alias fname args dirs sels) =
+  (match alias with Some a => [e_name a; e_colon] | None => [] end)
+  ++ e_name fname :: etoks_args args ++ etoks_dirs dirs ++ etoks_set sels.
+Proof. reflexivity. Qed.
+Lemma etoks_sel_inline : forall tc dirs sels,
+  etoks_sel (SInline tc dirs sels) =
+  e_spread :: (match tc with Some t => [e_name s_on; e_name t] | None => [] end) ++ etoks_dirs dirs ++ etoks_set sels.
+Proof. reflexivity. Qed.
+Lemma etoks_sel_spread : forall fr dirs, etoks_sel (SSpread fr dirs) = e_spread :: e_name fr :: etoks_dirs dirs.
+Proof. reflexivity. Qed.
+
+Definition follow_sel (es : list etok) : Prop :=
+  first_kind es = Some KIdent \/ first_kind es = Some KSpread \/ first_kind es = Some KRBrace.
+
+Lemma first_kind_sel : forall s es, first_kind (etoks_sel s ++ es) = Some KIdent \/ first_kind (etoks_sel s ++ es) = Some KSpread.
+Proof.
+  intros s es. destruct s as [alias fname args dirs sels|tc dirs sels|fr dirs].
+  - rewrite etoks_sel_field. destruct alias; left; reflexivity.
+  - rewrite etoks_sel_inline. right. reflexivity.
+  - rewrite etoks_sel_spread. right. reflexivity.
+Qed.
+Lemma follow_sels : forall sels es, follow_sel (flat_map etoks_sel sels ++ e_rbrace :: es).
+Proof.
+  intros sels es. destruct sels as [|x r]; [right; right; reflexivity|].
+  simpl flat_map. rewrite <- app_assoc. destruct (first_kind_sel x (flat_map etoks_sel r ++ e_rbrace :: es)) as [H|H]; [left|right; left]; exact H.
+Qed.
+Lemma first_kind_set : forall sels es, first_kind (etoks_set sels ++ es) = match sels with [] => first_kind es | _ => Some KLBrace end.
+Proof. intros. destruct sels; reflexivity. Qed.
+Lemma first_kind_args : forall args es, first_kind (etoks_args args ++ es) = match args with [] => first_kind es | _ => Some KLParen end.
+Proof. intros. destruct args; reflexivity. Qed.
+
+Definition SelsetComplete (selset : list ptoken -> res (list selection)) (bound : nat) : Prop :=
+  forall sels es ts, sels <> [] -> forallb wf_sel sels = true -> length ts <= bound ->
+    matches (etoks_set sels ++ es) ts -> exists ts', selset ts = Ok sels ts' /\ matches es ts'.
+
+(* what follows the (optional) selection set of a field or inline fragment: never a brace *)
+Lemma tail_set : forall selset bound tsx sels es (mk : list selection -> selection),
+  SelsetComplete selset bound -> forallb wf_sel sels = true -> length tsx <= bound ->
+  first_kind es <> Some KLBrace ->
+  matches (etoks_set sels ++ es) tsx ->
+  exists ts', match tsx with
+              | b :: _ =>
+                if is_kind KLBrace b then
+                  match selset tsx with
+                  | Ok sels' r4 => Ok (mk sels') r4
+                  | Err => Err | Unsup => Unsup | Oof => Oof
+                  end
+                else Ok (mk []) tsx
+              | [] => Ok (mk []) tsx
+              end = Ok (mk sels) ts' /\ matches es ts'.
+Proof.
+  intros selset bound tsx sels es mk HS Hwf Hb Hn H.
+  destruct sels as [|x rest].
+  - simpl in H. destruct tsx as [|b r]; [exists []; auto|].
+    rewrite (next_not _ _ _ _ H Hn). exists (b :: r). auto.
+  - pose proof H as H'. unfold etoks_set in H'. rewrite <- app_comm_cons in H'.
+    apply matches_ET in H'. destruct H' as (b & r & -> & Hk & _ & _). kinds.
+    destruct (HS (x :: rest) es (b :: r) ltac:(discriminate) Hwf Hb H) as (ts' & E & M).
+    rewrite E. exists ts'. auto.
+Qed.
+
+Lemma field_tail_complete : forall selset f alias nm args dirs sels es r1,
+  wf_args args = true -> wf_dirs dirs = true -> forallb wf_sel sels = true ->
+  first_kind es <> Some KAt -> first_kind es <> Some KLParen -> first_kind es <> Some KLBrace ->
+  3 * length r1 + 1 < f -> SelsetComplete selset (length r1) ->
+  matches (etoks_args args ++ etoks_dirs dirs ++ etoks_set sels ++ es) r1 ->
+  exists ts', field_tail selset f alias nm r1 = Ok (SField alias nm args dirs sels) ts' /\ matches es ts'.
+Proof.
+  intros selset f alias nm args dirs sels es r1 Wa Wd Ws Hna Hnp Hnb Hf HS H. unfold field_tail.
+  assert (A1 : exists r2, parse_opt_args f r1 = Ok args r2 /\ matches (etoks_dirs dirs ++ etoks_set sels ++ es) r2).
+  { apply opt_args_complete; [exact Wa| |lia|exact H].
+    rewrite first_kind_dirs. destruct dirs; [|congruence]. rewrite first_kind_set. destruct sels; [exact Hnp|congruence]. }
+  destruct A1 as (r2 & E1 & M1).
+  rewrite E1. pose proof (optargs_len _ _ _ _ E1) as L1.
+  assert (A2 : exists r3, parse_dirs f r2 [] = Ok (rev [] ++ dirs) r3 /\ matches (etoks_set sels ++ es) r3).
+  { apply dirs_complete; [exact Wd| | |lia|exact M1].
+    - rewrite first_kind_set. destruct sels; [exact Hna|congruence].
+    - rewrite first_kind_set. destruct sels; [exact Hnp|congruence]. }
+  destruct A2 as (r3 & E2 & M2).
+  rewrite E2. pose proof (dirs_len _ _ _ _ _ E2) as L2. simpl rev. simpl app.
+  apply (tail_set selset (length r1) r3 sels es (fun s => SField alias nm args dirs s)); try assumption. lia.
+Qed.
+
+Lemma inline_tail_complete : forall selset f tc dirs sels es r1,
+  wf_dirs dirs = true -> forallb wf_sel sels = true ->
+  first_kind es <> Some KAt -> first_kind es <> Some KLParen -> first_kind es <> Some KLBrace ->
+  3 * length r1 + 1 < f -> SelsetComplete selset (length r1) ->
+  matches (etoks_dirs dirs ++ etoks_set sels ++ es) r1 ->
+  exists ts', inline_tail selset f tc r1 = Ok (SInline tc dirs sels) ts' /\ matches es ts'.
+Proof.
+  intros selset f tc dirs sels es r1 Wd Ws Hna Hnp Hnb Hf HS H. unfold inline_tail.
+  assert (A2 : exists r2, parse_dirs f r1 [] = Ok (rev [] ++ dirs) r2 /\ matches (etoks_set sels ++ es) r2).
+  { apply dirs_complete; [exact Wd| | |lia|exact H].
+    - rewrite first_kind_set. destruct sels; [exact Hna|congruence].
+    - rewrite first_kind_set. destruct sels; [exact Hnp|congruence]. }
+  destruct A2 as (r2 & E2 & M2).
+  rewrite E2. pose proof (dirs_len _ _ _ _ _ E2) as L2. simpl rev. simpl app.
+  apply (tail_set selset (length r1) r2 sels es (fun s => SInline tc dirs s)); try assumption.
+Qed.
+
+Lemma follow_sel_not : forall es, follow_sel es ->
+  first_kind es <> Some KAt /\ first_kind es <> Some KLParen /\ first_kind es <> Some KLBrace /\ first_kind es <> Some KColon.
+Proof. intros es [H|[H|H]]; rewrite H; repeat split; congruence. Qed.
+
+Lemma kw_on : keyword_of s_on = IKOn. Proof. reflexivity. Qed.
+
+Lemma sel_complete : forall fuel,
+  (forall sels es ts, sels <> [] -> forallb wf_sel sels = true -> 3 * length ts < fuel ->
+     matches (etoks_set sels ++ es) ts -> exists ts', parse_selset fuel ts = Ok sels ts' /\ matches es ts') /\
+  (forall sels acc es ts, forallb wf_sel sels = true -> (acc <> [] \/ sels <> []) -> 3 * length ts + 2 < fuel ->
+     matches (flat_map etoks_sel sels ++ e_rbrace :: es) ts ->
+     exists ts', parse_sels fuel ts acc = Ok (rev acc ++ sels) ts' /\ matches es ts') /\
+  (forall alias nm args dirs sels es ts, wf_sel (SField alias nm args dirs sels) = true -> follow_sel es ->
+     3 * length ts + 1 < fuel -> matches (etoks_sel (SField alias nm args dirs sels) ++ es) ts ->
+     exists ts', parse_field fuel ts = Ok (SField alias nm args dirs sels) ts' /\ matches es ts') /\
+  (forall s es sp ts, (match s with SField _ _ _ _ _ => False | _ => True end) -> wf_sel s = true -> follow_sel es ->
+     3 * length ts + 2 < fuel -> matches (etoks_sel s ++ es) (sp :: ts) ->
+     exists ts', parse_frag_sel fuel ts = Ok s ts' /\ matches es ts').
+Proof.
+  induction fuel as [|f IH]; [repeat split; intros; lia|].
+  destruct IH as (IHset & IHsels & IHfield & IHfrag).
+  assert (HSC : forall bound, 3 * bound < f -> SelsetComplete (parse_selset f) bound).
+  { intros bound Hb sels es ts Hne Hwf Hl H. apply IHset; try assumption. lia. }
+  repeat split.
+  - (* selection set *)
+    intros sels es ts Hne Hwf Hf H. cbn [parse_selset].
+    destruct sels as [|x rest]; [congruence|].
+    unfold etoks_set in H. rewrite <- app_comm_cons in H.
+    apply matches_ET in H. destruct H as (t & r & -> & Hk & _ & H). kinds.
+    rewrite <- app_assoc in H. simpl app in H.
+    destruct (IHsels (x :: rest) [] es r Hwf ltac:(right; discriminate) ltac:(simpl in *; lia) H) as (ts' & E & M).
+    exists ts'. split; [exact E|exact M].
+  - (* loop *)
+    intros sels acc es ts Hwf Hne Hf H. cbn [parse_sels].
+    destruct sels as [|x rest].
+    + simpl in H. destruct ts as [|t r]; [contradiction|]. destruct H as (Hk & _ & Hr). kinds.
+      destruct acc as [|a0 acc']; [destruct Hne; congruence|].
+      rewrite app_nil_r. exists r. auto.
+    + simpl flat_map in H. rewrite <- app_assoc in H.
+      simpl in Hwf. apply andb_prop in Hwf. destruct Hwf as [Hx Hrest].
+      pose proof (follow_sels rest es) as Hfol.
+      destruct x as [alias nm args dirs sels|tc dirs sels|fr dirs].
+      * (* a field: first token is an identifier *)
+        assert (Hid : exists t r, ts = t :: r /\ pk t = KIdent).
+        { rewrite etoks_sel_field in H. destruct alias; simpl in H; (destruct ts as [|t r]; [contradiction|]);
+            destruct H as (Hk & _); exists t, r; auto. }
+        destruct Hid as (t & r & -> & Hk). kinds.
+        destruct (IHfield alias nm args dirs sels _ (t :: r) Hx Hfol ltac:(simpl in *; lia) H) as (ts1 & E1 & M1).
+        rewrite E1. pose proof (field_len _ _ _ _ E1) as Hlen.
+        destruct (IHsels rest (SField alias nm args dirs sels :: acc) es ts1 Hrest ltac:(left; discriminate) ltac:(simpl in *; lia) M1) as (ts' & E2 & M2).
+        exists ts'. split; [|exact M2]. rewrite E2. simpl. rewrite <- app_assoc. reflexivity.
+      * pose proof H as H'. rewrite etoks_sel_inline in H'. rewrite <- app_comm_cons in H'.
+        apply matches_ET in H'. destruct H' as (t & r & -> & Hk & _ & _). kinds.
+        destruct (IHfrag (SInline tc dirs sels) _ t r I Hx Hfol ltac:(simpl in *; lia) H) as (ts1 & E1 & M1).
+        rewrite E1. pose proof (fragsel_len _ _ _ _ E1) as Hlen.
+        destruct (IHsels rest (SInline tc dirs sels :: acc) es ts1 Hrest ltac:(left; discriminate) ltac:(simpl in *; lia) M1) as (ts' & E2 & M2).
+        exists ts'. split; [|exact M2]. rewrite E2. simpl. rewrite <- app_assoc. reflexivity.
+      * pose proof H as H'. rewrite etoks_sel_spread in H'. rewrite <- app_comm_cons in H'.
+        apply matches_ET in H'. destruct H' as (t & r & -> & Hk & _ & _). kinds.
+        destruct (IHfrag (SSpread fr dirs) _ t r I Hx Hfol ltac:(simpl in *; lia) H) as (ts1 & E1 & M1).
+        rewrite E1. pose proof (fragsel_len _ _ _ _ E1) as Hlen.
+        destruct (IHsels rest (SSpread fr dirs :: acc) es ts1 Hrest ltac:(left; discriminate) ltac:(simpl in *; lia) M1) as (ts' & E2 & M2).
+        exists ts'. split; [|exact M2]. rewrite E2. simpl. rewrite <- app_assoc. reflexivity.
+  - (* field *)
+    intros alias nm args dirs sels es ts Hwf Hfol Hf H. cbn [parse_field].
+    simpl in Hwf. apply andb_prop in Hwf. destruct Hwf as [Hwf Ws]. apply andb_prop in Hwf. destruct Hwf as [Wa Wd].
+    destruct (follow_sel_not es Hfol) as (Hna & Hnp & Hnb & Hnc).
+    rewrite etoks_sel_field in H.
+    destruct alias as [a|].
+    + simpl app in H. destruct ts as [|t [|c [|n r2]]]; simpl in H; try contradiction;
+        try (destruct H as (_ & _ & H); contradiction); try (destruct H as (_ & _ & _ & _ & H); contradiction).
+      destruct H as (Hk & Hl & Hc & _ & Hn & Hnl & H). kinds.
+      rewrite <- !app_assoc in H.
+      assert (A : exists ts', field_tail (parse_selset f) f (Some (plit t)) (plit n) r2 = Ok (SField (Some (plit t)) (plit n) args dirs sels) ts' /\ matches es ts').
+      { apply field_tail_complete; try assumption; [simpl in *; lia|apply HSC; simpl in *; lia]. }
+      destruct A as (ts' & E & M).
+      rewrite E, Hl, Hnl. exists ts'. auto.
+    + simpl app in H. apply matches_ET in H. destruct H as (t & r & -> & Hk & Hl & H). kinds.
+      rewrite <- !app_assoc in H.
+      assert (Hcol : match r with c :: _ => is_kind KColon c = false | [] => True end).
+      { destruct r as [|c r1]; [exact I|]. apply (next_not _ _ _ _ H).
+        rewrite first_kind_args. destruct args; [|congruence]. rewrite first_kind_dirs. destruct dirs; [|congruence].
+        rewrite first_kind_set. destruct sels; [exact Hnc|congruence]. }
+      assert (A : exists ts', field_tail (parse_selset f) f None (plit t) r = Ok (SField None (plit t) args dirs sels) ts' /\ matches es ts').
+      { apply field_tail_complete; try assumption; [simpl in *; lia|apply HSC; simpl in *; lia]. }
+      destruct A as (ts' & E & M).
+      destruct r as [|c r1]; [rewrite E, Hl; exists ts'; auto|]. rewrite Hcol. rewrite E, Hl. exists ts'. auto.
+  - (* after a spread *)
+    intros s es sp ts Hs Hwf Hfol Hf H. cbn [parse_frag_sel].
+    destruct (follow_sel_not es Hfol) as (Hna & Hnp & Hnb & Hnc).
+    destruct s as [alias nm args dirs sels|tc dirs sels|fr dirs]; [contradiction| |].
+    + rewrite etoks_sel_inline in H. rewrite <- app_comm_cons in H. simpl in H. destruct H as (_ & _ & H).
+      simpl in Hwf. apply andb_prop in Hwf. destruct Hwf as [Hwf Hne]. apply andb_prop in Hwf. destruct Hwf as [Wd Ws].
+      rewrite <- !app_assoc in H.
+      destruct tc as [tn|].
+      * simpl app in H. destruct ts as [|t [|n r1]]; simpl in H; try contradiction; try (destruct H as (_ & _ & H); contradiction).
+        destruct H as (Hk & Hl & Hn & Hnl & H). kinds.
+        assert (Hon : is_on t = true). { unfold is_on. kinds. rewrite Hl, kw_on. reflexivity. }
+        rewrite Hon.
+        assert (A : exists ts', inline_tail (parse_selset f) f (Some (plit n)) r1 = Ok (SInline (Some (plit n)) dirs sels) ts' /\ matches es ts').
+        { apply inline_tail_complete; try assumption; [simpl in *; lia|apply HSC; simpl in *; lia]. }
+        destruct A as (ts' & E & M).
+        rewrite E, Hnl. exists ts'. auto.
+      * simpl app in H.
+        (* the first token after the spread is '@' or '{' *)
+        assert (Hfirst : exists t r, ts = t :: r /\ (pk t = KAt \/ pk t = KLBrace)).
+        { destruct dirs as [|d dr].
+          - destruct sels as [|x xr]; [discriminate Hne|].
+            change (etoks_dirs [] ++ etoks_set (x :: xr) ++ es) with (e_lbrace :: (flat_map etoks_sel (x :: xr) ++ [e_rbrace]) ++ es) in H.
+            apply matches_ET in H. destruct H as (t & r & -> & Hk & _). exists t, r. auto.
+          - unfold etoks_dirs in H. simpl in H. destruct ts as [|t r]; [contradiction|]. destruct H as (Hk & _). exists t, r. auto. }
+        destruct Hfirst as (t & r & -> & Hk).
+        assert (Hor : is_kind KLBrace t || is_kind KAt t = true).
+        { destruct Hk as [Hk|Hk]; kinds; reflexivity. }
+        rewrite Hor.
+        assert (A : exists ts', inline_tail (parse_selset f) f None (t :: r) = Ok (SInline None dirs sels) ts' /\ matches es ts').
+        { apply inline_tail_complete; try assumption; [simpl in *; lia|apply HSC; simpl in *; lia]. }
+        destruct A as (ts' & E & M).
+        rewrite E. exists ts'. auto.
+    + rewrite etoks_sel_spread in H. simpl in H. destruct H as (_ & _ & H).
+      destruct ts as [|t r]; [contradiction|]. destruct H as (Hk & Hl & H). kinds.
+      simpl in Hwf. apply andb_prop in Hwf. destruct Hwf as [Hon Wd].
+      assert (Hno : is_on t = false).
+      { unfold is_on. kinds. rewrite Hl. unfold kw_is, ikw_eqb in Hon.
+        destruct (keyword_of fr); try reflexivity. simpl in Hon. discriminate Hon. }
+      rewrite Hno.
+      assert (A2 : exists r2, parse_dirs f r [] = Ok (rev [] ++ dirs) r2 /\ matches es r2).
+      { apply dirs_complete; [exact Wd|exact Hna|exact Hnp|simpl in *; lia|exact H]. }
+      destruct A2 as (r2 & E2 & M2). rewrite E2, Hl. exists r2. auto.
+Qed.
+
+(* ---- variable definitions ---- *)
+Lemma first_kind_vardefs_tail : forall vs es, first_kind (flat_map etoks_vardef vs ++ e_rparen :: es) = Some KDollar \/
+                                             first_kind (flat_map etoks_vardef vs ++ e_rparen :: es) = Some KRParen.
+Proof. intros. destruct vs; [right|left]; reflexivity. Qed.
+
+Lemma vardefs_complete : forall fuel vs acc es ts, forallb wf_vardef vs = true -> 3 * length ts + 1 < fuel ->
+  matches (flat_map etoks_vardef vs ++ e_rparen :: es) ts ->
+  exists ts', parse_vardefs fuel ts acc = Ok (rev acc ++ vs) ts' /\ matches es ts'.
+Proof.
+  induction fuel as [|f IH]; intros vs acc es ts Hwf Hf H; [lia|].
+  cbn [parse_vardefs]. destruct vs as [|v rest].
+  - simpl in H. destruct ts as [|t r]; [contradiction|]. destruct H as (Hk & _ & Hr). kinds.
+    rewrite app_nil_r. exists r. auto.
+  - simpl flat_map in H. unfold etoks_vardef at 1 in H. simpl app in H.
+    destruct ts as [|d [|x [|c r2]]]; simpl in H; try contradiction; try (destruct H as (_ & _ & _ & _ & H); contradiction).
+    destruct H as (Hd & Hx & Hxl & Hadj & Hc & _ & H). kinds. rewrite Hadj, N.eqb_refl. simpl.
+    simpl in Hwf. apply andb_prop in Hwf. destruct Hwf as [Hv Hrest].
+    unfold wf_vardef in Hv. apply andb_prop in Hv. destruct Hv as [Hv Wd]. apply andb_prop in Hv. destruct Hv as [Wt Wv].
+    rewrite <- !app_assoc in H.
+    set (tail := flat_map etoks_vardef rest ++ e_rparen :: es) in *.
+    assert (Htail : first_kind tail = Some KDollar \/ first_kind tail = Some KRParen) by apply first_kind_vardefs_tail.
+    assert (Hafter : forall ds, first_kind (etoks_dirs ds ++ tail) <> Some KBang /\ first_kind (etoks_dirs ds ++ tail) <> Some KEquals).
+    { intro ds. rewrite first_kind_dirs. destruct ds; [destruct Htail as [E|E]; rewrite E|]; split; congruence. }
+    (* type *)
+    assert (A1 : exists r3, parse_type f r2 = Ok (vd_type v) r3 /\
+                            matches ((match vd_default v with Some dv => e_equals :: etoks_value dv | None => [] end) ++ etoks_dirs (vd_dirs v) ++ tail) r3).
+    { apply type_complete; [exact Wt| |simpl in *; lia|exact H].
+      destruct (vd_default v); [simpl; congruence|]. apply (Hafter (vd_dirs v)). }
+    destruct A1 as (r3 & E1 & M1). rewrite E1. pose proof (type_len _ _ _ _ E1) as L1.
+    (* directives and the rest of the list, from a continuation that matches dirs ++ tail *)
+    assert (Fin : forall dv r4, length r4 <= length r3 -> matches (etoks_dirs (vd_dirs v) ++ tail) r4 ->
+       exists ts', match parse_dirs f r4 [] with
+                   | Ok dirs r5 => parse_vardefs f r5 ({| vd_name := plit x; vd_type := vd_type v; vd_default := dv; vd_dirs := dirs |} :: acc)
+                   | Err => Err | Unsup => Unsup | Oof => Oof end
+                   = Ok (rev acc ++ {| vd_name := plit x; vd_type := vd_type v; vd_default := dv; vd_dirs := vd_dirs v |} :: rest) ts'
+                   /\ matches es ts').
+    { intros dv r4 L4 M4.
+      assert (A2 : exists r5, parse_dirs f r4 [] = Ok (rev [] ++ vd_dirs v) r5 /\ matches tail r5).
+      { apply dirs_complete; [exact Wd| | |simpl in *; lia|exact M4]; destruct Htail as [E|E]; rewrite E; congruence. }
+      destruct A2 as (r5 & E2 & M2). rewrite E2. pose proof (dirs_len _ _ _ _ _ E2) as L5. simpl rev. simpl app.
+      destruct (IH rest ({| vd_name := plit x; vd_type := vd_type v; vd_default := dv; vd_dirs := vd_dirs v |} :: acc) es r5 Hrest
+                  ltac:(simpl in *; lia) M2) as (ts' & E3 & M3).
+      exists ts'. split; [|exact M3]. rewrite E3. simpl. rewrite <- app_assoc. reflexivity. }
+    destruct (vd_default v) as [dv|] eqn:Edv.
+    + simpl app in M1. apply matches_ET in M1. destruct M1 as (e & r4 & -> & He & _ & M1). kinds.
+      destruct (value_complete1 f dv _ r4 Wv ltac:(simpl in *; lia) M1) as (r5 & E4 & M4). rewrite E4.
+      pose proof (value_len _ _ _ _ E4) as L4.
+      destruct (Fin (Some dv) r5 ltac:(simpl in *; lia) M4) as (ts' & E5 & M5).
+      exists ts'. split; [|exact M5]. rewrite E5. rewrite Hxl. destruct v; simpl in *. subst. reflexivity.
+    + simpl app in M1.
+      destruct (Fin None r3 ltac:(lia) M1) as (ts' & E5 & M5).
+      assert (Hne : match r3 with e :: _ => is_kind KEquals e = false | [] => True end).
+      { destruct r3 as [|e r4]; [exact I|]. apply (next_not _ _ _ _ M1). apply (Hafter (vd_dirs v)). }
+      exists ts'. split; [|exact M5].
+      destruct r3 as [|e r4]; [|rewrite Hne]; rewrite E5; rewrite Hxl; destruct v; simpl in *; subst; reflexivity.
+Qed.
+
+(* ---- definitions ---- *)
+Lemma selset_complete1 : forall fuel sels es ts, sels <> [] -> forallb wf_sel sels = true -> 3 * length ts < fuel ->
+  matches (etoks_set sels ++ es) ts -> exists ts', parse_selset fuel ts = Ok sels ts' /\ matches es ts'.
+Proof. intro fuel. apply (sel_complete fuel). Qed.
+
+Lemma first_kind_vardefs : forall vs es, first_kind (etoks_vardefs vs ++ es) = match vs with [] => first_kind es | _ => Some KLParen end.
+Proof. intros. destruct vs; reflexivity. Qed.
+
+Lemma operation_complete : forall f k nm vars dirs sels es ts,
+  forallb wf_vardef vars = true -> wf_dirs dirs = true -> forallb wf_sel sels = true -> sels <> [] ->
+  3 * length ts + 1 < f ->
+  matches ((match nm with Some n => [e_name n] | None => [] end) ++ etoks_vardefs vars ++ etoks_dirs dirs ++ etoks_set sels ++ es) ts ->
+  exists ts', parse_operation f k ts = Ok (DOp {| op_kind := k; op_name := nm; op_vars := vars; op_dirs := dirs; op_sels := sels |}) ts'
+              /\ matches es ts'.
+Proof.
+  intros f k nm vars dirs sels es ts Wv Wd Ws Hne Hf H. unfold parse_operation.
+  assert (Hset : first_kind (etoks_set sels ++ es) = Some KLBrace) by (rewrite first_kind_set; destruct sels; [congruence|reflexivity]).
+  (* the name *)
+  assert (A0 : exists r1, match ts with
+                          | t :: r => if is_kind KIdent t then (Some (plit t), r) else (None, ts)
+                          | [] => (None, ts) end = (nm, r1)
+                          /\ length r1 <= length ts
+                          /\ matches (etoks_vardefs vars ++ etoks_dirs dirs ++ etoks_set sels ++ es) r1).
+  { destruct nm as [n|].
+    - simpl app in H. apply matches_ET in H. destruct H as (t & r & -> & Hk & Hl & H). kinds.
+      exists r. rewrite Hl. repeat split; [simpl; lia|exact H].
+    - simpl app in H. destruct ts as [|t r]; [exists []; repeat split; [lia|exact H]|].
+      rewrite (next_not _ _ _ KIdent H).
+      + exists (t :: r). repeat split; [lia|exact H].
+      + rewrite first_kind_vardefs. destruct vars; [|congruence]. rewrite first_kind_dirs. destruct dirs; [|congruence].
+        rewrite Hset. congruence. }
+  destruct A0 as (r1 & E0 & L0 & M0). rewrite E0.
+  (* the variable definitions *)
+  assert (A1 : exists r2, match r1 with
+                          | t :: r => if is_kind KLParen t then parse_vardefs f r [] else Ok [] r1
+                          | [] => Ok [] r1 end = Ok vars r2
+                          /\ length r2 <= length r1 /\ matches (etoks_dirs dirs ++ etoks_set sels ++ es) r2).
+  { destruct vars as [|v vr].
+    - simpl app in M0. destruct r1 as [|t r]; [exists []; repeat split; [lia|exact M0]|].
+      rewrite (next_not _ _ _ KLParen M0).
+      + exists (t :: r). repeat split; [lia|exact M0].
+      + rewrite first_kind_dirs. destruct dirs; [|congruence]. rewrite Hset. congruence.
+    - assert (Hx : etoks_vardefs (v :: vr) ++ etoks_dirs dirs ++ etoks_set sels ++ es
+                   = e_lparen :: flat_map etoks_vardef (v :: vr) ++ e_rparen :: etoks_dirs dirs ++ etoks_set sels ++ es).
+      { unfold etoks_vardefs. rewrite <- app_comm_cons, <- app_assoc. reflexivity. }
+      rewrite Hx in M0. apply matches_ET in M0. destruct M0 as (t & r & -> & Hk & _ & M0). kinds.
+      destruct (vardefs_complete f (v :: vr) [] _ r Wv ltac:(simpl in *; lia) M0) as (r2 & E & M).
+      exists r2. pose proof (vardefs_len _ _ _ _ _ E). repeat split; [exact E|simpl in *; lia|exact M]. }
+  destruct A1 as (r2 & E1 & L1 & M1). rewrite E1.
+  assert (A2 : exists r3, parse_dirs f r2 [] = Ok (rev [] ++ dirs) r3 /\ matches (etoks_set sels ++ es) r3).
+  { apply dirs_complete; [exact Wd| | |lia|exact M1]; rewrite Hset; congruence. }
+  destruct A2 as (r3 & E2 & M2). rewrite E2. pose proof (dirs_len _ _ _ _ _ E2) as L2. simpl rev. simpl app.
+  destruct (selset_complete1 f sels es r3 Hne Ws ltac:(lia) M2) as (ts' & E3 & M3). rewrite E3.
+  exists ts'. auto.
+Qed.
+
+Lemma kw_fragment : keyword_of s_fragment = IKFragment. Proof. reflexivity. Qed.
+Lemma kw_query : keyword_of s_query = IKQuery. Proof. reflexivity. Qed.
+Lemma kw_mutation : keyword_of s_mutation = IKMutation. Proof. reflexivity. Qed.
+Lemma kw_subscription : keyword_of s_subscription = IKSubscription. Proof. reflexivity. Qed.
+
+Lemma fragment_complete : forall f nm tyn dirs sels es ts,
+  wf_dirs dirs = true -> forallb wf_sel sels = true -> sels <> [] -> 3 * length ts + 1 < f ->
+  matches (e_name nm :: e_name s_on :: e_name tyn :: etoks_dirs dirs ++ etoks_set sels ++ es) ts ->
+  exists ts', parse_fragment f ts = Ok (DFrag {| fr_name := nm; fr_type := tyn; fr_dirs := dirs; fr_sels := sels |}) ts' /\ matches es ts'.
+Proof.
+  intros f nm tyn dirs sels es ts Wd Ws Hne Hf H. unfold parse_fragment.
+  destruct ts as [|n [|o [|t r]]]; simpl in H; try contradiction; try (destruct H as (_ & _ & H); contradiction);
+    try (destruct H as (_ & _ & _ & _ & H); contradiction).
+  destruct H as (Hn & Hnl & Ho & Hol & Ht & Htl & H).
+  assert (Hon : is_on o = true). { unfold is_on. kinds. rewrite Hol, kw_on. reflexivity. }
+  kinds. rewrite Hon. simpl.
+  assert (Hset : first_kind (etoks_set sels ++ es) = Some KLBrace) by (rewrite first_kind_set; destruct sels; [congruence|reflexivity]).
+  assert (A2 : exists r3, parse_dirs f r [] = Ok (rev [] ++ dirs) r3 /\ matches (etoks_set sels ++ es) r3).
+  { apply dirs_complete; [exact Wd| | |simpl in *; lia|exact H]; rewrite Hset; congruence. }
+  destruct A2 as (r3 & E2 & M2). rewrite E2. pose proof (dirs_len _ _ _ _ _ E2) as L2. simpl rev. simpl app.
+  destruct (selset_complete1 f sels es r3 Hne Ws ltac:(simpl in *; lia) M2) as (ts' & E3 & M3). rewrite E3.
+  exists ts'. rewrite Hnl, Htl. auto.
+Qed.
+
+Lemma nonempty_ne : forall {A} (l : list A), nonempty l = true -> l <> [].
+Proof. intros A l H. destruct l; [discriminate H|discriminate]. Qed.
+
+Lemma defs_complete : forall fuel defs acc ts, forallb wf_def defs = true -> 3 * length ts + 2 < fuel ->
+  matches (flat_map etoks_def defs) ts -> parse_defs fuel ts acc = Ok (rev acc ++ defs) [].
+Proof.
+  induction fuel as [|f IH]; intros defs acc ts Hwf Hf H; [lia|].
+  cbn [parse_defs]. destruct defs as [|d rest].
+  - simpl in H. subst ts. rewrite app_nil_r. reflexivity.
+  - simpl flat_map in H. simpl in Hwf. apply andb_prop in Hwf. destruct Hwf as [Hd Hrest].
+    set (es := flat_map etoks_def rest) in *.
+    assert (Next : forall x ts1, length ts1 < length ts -> matches es ts1 ->
+              parse_defs f ts1 (x :: acc) = Ok (rev acc ++ x :: rest) []).
+    { intros x ts1 L M. rewrite (IH rest (x :: acc) ts1 Hrest ltac:(lia) M). simpl. rewrite <- app_assoc. reflexivity. }
+    destruct d as [o|fr].
+    + destruct o as [k nm vars dirs sels]. unfold wf_def in Hd. simpl in Hd.
+      apply andb_prop in Hd. destruct Hd as [Hd Hne]. apply andb_prop in Hd. destruct Hd as [Hd Ws].
+      apply andb_prop in Hd. destruct Hd as [Wv Wd]. apply nonempty_ne in Hne.
+      unfold etoks_def in H. simpl op_kind in H. simpl op_name in H. simpl op_vars in H. simpl op_dirs in H. simpl op_sels in H.
+      (* keyword written or not *)
+      match goal with |- ?G =>
+        assert (Kw : forall kwb (kk : opkind), keyword_of kwb = match kk with OpQuery => IKQuery | OpMutation => IKMutation | OpSubscription => IKSubscription end ->
+                kk = k ->
+                matches (([e_name kwb] ++ (match nm with Some n => [e_name n] | None => [] end) ++ etoks_vardefs vars ++ etoks_dirs dirs ++ etoks_set sels) ++ es) ts ->
+                G) end.
+      { intros kwb kk Ekw <- M. rewrite <- app_assoc in M. simpl app in M.
+        apply matches_ET in M. destruct M as (t & r & -> & Hk & Hl & M). kinds.
+        rewrite Hl, Ekw.
+        assert (Eo : opkind_of (match kk with OpQuery => IKQuery | OpMutation => IKMutation | OpSubscription => IKSubscription end) = Some kk)
+          by (destruct kk; reflexivity).
+        rewrite Eo. rewrite <- !app_assoc in M.
+        destruct (operation_complete f kk nm vars dirs sels es r Wv Wd Ws Hne ltac:(simpl in *; lia) M) as (ts1 & E & M1).
+        rewrite E. apply Next; [|exact M1]. apply operation_len in E. simpl. lia. }
+      destruct k.
+      * destruct nm as [n|]; [|destruct vars as [|v vr]; [destruct dirs as [|dd dr]|]];
+          try (apply (Kw s_query OpQuery kw_query eq_refl); exact H).
+        (* shorthand: the selection set alone *)
+        simpl app in H.
+        assert (Hb : exists t r, ts = t :: r /\ pk t = KLBrace).
+        { destruct sels as [|x xr]; [congruence|]. unfold etoks_set in H. rewrite <- app_comm_cons in H.
+          apply matches_ET in H. destruct H as (t & r & -> & Hk & _). exists t, r. auto. }
+        destruct Hb as (t & r & -> & Hk). kinds.
+        destruct (selset_complete1 f sels es (t :: r) Hne Ws ltac:(simpl in *; lia) H) as (ts1 & E & M1).
+        rewrite E. apply Next; [|exact M1]. apply selset_len in E. exact E.
+      * apply (Kw s_mutation OpMutation kw_mutation eq_refl). exact H.
+      * apply (Kw s_subscription OpSubscription kw_subscription eq_refl). exact H.
+    + destruct fr as [nm tyn dirs sels]. unfold wf_def in Hd. simpl in Hd.
+      apply andb_prop in Hd. destruct Hd as [Hd Hne]. apply andb_prop in Hd. destruct Hd as [Wd Ws]. apply nonempty_ne in Hne.
+      unfold etoks_def in H. simpl fr_name in H. simpl fr_type in H. simpl fr_dirs in H. simpl fr_sels in H.
+      rewrite <- app_comm_cons in H. apply matches_ET in H. destruct H as (t & r & -> & Hk & Hl & M). kinds.
+      rewrite Hl, kw_fragment. simpl opkind_of. cbv iota.
+      rewrite <- !app_comm_cons in M. rewrite <- app_assoc in M.
+      destruct (fragment_complete f nm tyn dirs sels es r Wd Ws Hne ltac:(simpl in *; lia) M) as (ts1 & E & M1).
+      rewrite E. apply Next; [|exact M1]. apply fragment_len in E. simpl. lia.
+Qed.
+
+(* the parser inverts the token-level printer *)
+Theorem print_parse_tokens_proof : forall d ts, wf_doc d = true -> matches (etoks d) ts -> parse ts = Ok d [].
+Proof.
+  intros d ts Hwf H. unfold parse, parse_fuel.
+  apply (defs_complete (3 * length ts + 3) d [] ts Hwf); [lia|exact H].
+Qed.
